@@ -5,6 +5,7 @@ that the library's per-type serializers are the code under test.
 NOTE: no `from __future__ import annotations` here — the library reads dataclass field types as objects.
 """
 import enum
+import typing
 from collections.abc import Sequence
 from dataclasses import dataclass
 
@@ -48,4 +49,44 @@ class ProbeOuter(TLVStruct):
     tail: bytes = tlv_entry(2)
 
 
-PROBES = [ProbeLeaf, ProbeAll, ProbeOuter]
+@dataclass
+class ProbeTypingSeq(TLVStruct):
+    """the list field spelled with typing.Sequence[...] (what older code and other packages write); the codec documents both spellings"""
+
+    head: u8 = tlv_entry(1)
+    leaves: typing.Sequence[ProbeLeaf] = tlv_entry(2)  # noqa: UP006
+    tail: bytes = tlv_entry(3)
+
+
+@dataclass
+class ProbeDerived(ProbeLeaf):
+    """a message type that extends another one by a field (a request extended with a TTL, say)"""
+
+    ttl: u16 = tlv_entry(4)
+    note: str = tlv_entry(5)
+
+
+def fresh_family():
+    """-> (Base, Derived, Sibling): brand-new classes on every call (nothing the codec memoised about earlier ones can apply), so that a
+    history 'which of them was used first' starts from scratch each time."""
+
+    @dataclass
+    class FamBase(TLVStruct):
+        blob: bytes = tlv_entry(1)
+        n: u8 = tlv_entry(2)
+
+    @dataclass
+    class FamDerived(FamBase):
+        ttl: u16 = tlv_entry(3)
+        text: str = tlv_entry(4)
+
+    @dataclass
+    class FamSibling(FamBase):
+        # the same field ids as FamDerived, other types
+        flag: u8 = tlv_entry(3)
+        more: bytes = tlv_entry(4)
+
+    return FamBase, FamDerived, FamSibling
+
+
+PROBES = [ProbeLeaf, ProbeAll, ProbeOuter, ProbeTypingSeq, ProbeDerived]
